@@ -8,5 +8,23 @@ EXTENDS Layout, Json
 SimRow(x) == [k |-> <<RandomElement(Series), RandomElement(Times)>>, fs |-> RandomElement((SUBSET Fields) \ {{}})]
 SimBatch(x, j) == LET n == RandomElement(1..MaxBatch) IN TLCEval([i \in 1..n |-> SimRow(x + i)])
 SimBatches == {SimBatch(nv, j) : j \in 1..3}
+\* biased sampling for reorganisation inputs with sparse columns and many segments: one series mostly,
+\* increasing times, most rows carrying only the first field
+SparseFs(x) == LET fl == SetToSeq(Fields)
+                   opts == <<{fl[1]}, {fl[1]}, {fl[1]}, Fields, {fl[Len(fl)]}>>
+               IN opts[RandomElement(1..5)]
+SparseRow(x) == [k |-> <<IF RandomElement(1..4) = 1 THEN RandomElement(Series) ELSE CHOOSE s \in Series : TRUE,
+                         RandomElement(Times)>>, fs |-> SparseFs(x)]
+SparseBatch(x, j) == LET n == RandomElement(1..MaxBatch) IN TLCEval([i \in 1..n |-> SparseRow(x + i)])
+SparseBatches == {SparseBatch(nv, j) : j \in 1..3}
+\* a fixed write script (the k-th write is the k-th batch) whose files differ in schema and have several
+\* segments; the BFS export config enumerates every placement of flushes, compactions, merges and reopens
+\* around it
+ScriptRow(t, fs) == [k |-> <<CHOOSE s \in Series : TRUE, t>>, fs |-> fs]
+F1 == SetToSeq(Fields)[1]
+Script == << <<ScriptRow(1, {F1}), ScriptRow(2, {F1}), ScriptRow(3, {F1})>>,
+             <<ScriptRow(4, Fields), ScriptRow(5, Fields)>>,
+             <<ScriptRow(6, Fields \ {F1}), ScriptRow(2, Fields)>> >>
+ScriptBatches == IF nw < Len(Script) THEN {Script[nw + 1]} ELSE {}
 Export == (Len(hist) = Depth) => PrintT(<<"TRACE", ToJson(hist)>>)
 =============================================================================
